@@ -23,15 +23,23 @@ theorem sort_perm (fs : List FileEnt) : (sortFileList fs).Perm fs := by
   have := sortLoop_perm (·.priority) fs.length fs [] (Nat.le_refl _)
   simpa [sortFileList, sortBy] using this
 
+/-- the file list of the instances: three files, a tie in priority -/
+def exList : List FileEnt := [{ path := [97], priority := 7 }, { path := [98], priority := -5 }, { path := [99], priority := 7, flags := 1 }]
+example := sort_perm exList
+
 /-- ascending priority -/
 theorem sort_sorted (fs : List FileEnt) : (sortFileList fs).Pairwise (fun a b => a.priority ≤ b.priority) := by
   exact sortLoop_sorted (·.priority) fs.length fs [] (Nat.le_refl _) List.Pairwise.nil (by simp)
+
+example := sort_sorted exList
 
 /-- stable: for every priority `p`, the files of priority `p` appear in their default (input) order -/
 theorem sort_stable (fs : List FileEnt) (p : Int) :
     (sortFileList fs).filter (fun f => f.priority == p) = fs.filter (fun f => f.priority == p) := by
   have := sortLoop_stable (·.priority) p fs.length fs [] (Nat.le_refl _)
   simpa [sortFileList, sortBy] using this
+
+example := sort_stable exList 7
 
 /-- **First match wins.**  With distinct paths (a tree has no two files of the same path), every file ends up with
 priority and flags of the *first* line of the sort file that matches its path, and with the defaults `(0, 0)` if no
@@ -48,6 +56,11 @@ theorem first_match_wins (mt : Matcher) (ls : List SortLine) (paths : List (List
   apply List.map_congr_left
   intro p _
   exact foldl_stepFile_fresh mt ls p
+
+/-- instance: "*" matches everything; overlapping glob and exact lines over three distinct paths -/
+def exMatcher : Matcher := fun _ pat path => pat == [42] || pat == path
+example := first_match_wins exMatcher [⟨-5, {}, [98]⟩, ⟨7, { doGlob := true, flags := 1 }, [42]⟩, ⟨-9, {}, [97]⟩] [[97], [98], [99]]
+  (by decide)
 
 /-- **An exact-path line matches one file.**  A line without `glob`/`glob_no_path` changes at most one entry of the
 file list: the first not yet matched file whose path equals the name (also when paths repeat). -/
@@ -88,6 +101,13 @@ theorem exact_line_matches_one (mt : Matcher) (l : SortLine) (h : l.dir.doGlob =
           · subst hx; exact Or.inr hne
           · exact h4 x hx
 
+/-- instance: the path of the line occurs three times in the list, once already matched by an earlier line; the line marks
+one entry (the second disjunct holds: the list changes) -/
+example := exact_line_matches_one exMatcher ⟨-5, {}, [98]⟩ rfl
+  [{ path := [97] }, { path := [98], matched := true }, { path := [98] }, { path := [98] }]
+example : applyLine exMatcher ⟨-5, {}, [98]⟩ [{ path := [97] }, { path := [98], matched := true }, { path := [98] }, { path := [98] }]
+    ≠ [{ path := [97] }, { path := [98], matched := true }, { path := [98] }, { path := [98] }] := by decide
+
 /-- **Quoted names.**  Every name — whatever bytes it contains — can be written in a sort file between quotes
 (`\"` for `"`, `\\` for `\`) and is then decoded to exactly that name (and canonicalised like an unquoted one).
 This is the current decoder (/repo 3c63401); the one before it appended the stale tail of the buffer (`Witness.d26_current`). -/
@@ -99,6 +119,9 @@ theorem quoted_name_decodes (n : List UInt8) :
   unfold decodeFilename
   simp only [if_true, unquote_escape n [], ne_eq, not_true_eq_false, if_false]
   cases Sqfs.Path.canonicalize n <;> rfl
+
+/-- instance: a name with a quote, a backslash, a blank and a slash -/
+example := quoted_name_decodes [97, 34, 92, 32, 47, 98]
 
 -- non-vacuity: a concrete run with negative priorities, a tie, overlapping glob and exact lines
 example :
@@ -151,6 +174,21 @@ theorem directives_preserve_tree (terminate : Bool) (mt : Matcher) (rawLines : L
       exact congrArg Except.ok this.symm
 
 
+open Sqfs.C17SortTree in
+open Sqfs.FsTree hiding FileEnt sortFileList sortFiles in
+/-- instance with the hypothesis met: two files, the second is moved to the front by the line `-5 b` -/
+example : ∃ s, fstreeSortFiles true (fun _ _ _ => false) [[45, 53, 32, 98]]
+      { tree := default, inodes := [[[98]], [[97]], []], files := [[[97]], [[98]]] } = .ok s ∧
+    s.fs.inodes = [[[98]], [[97]], []] ∧ s.fs.files.Perm [[[97]], [[98]]] := by
+  have hk : (fstreeSortFiles true (fun _ _ _ => false) [[45, 53, 32, 98]]
+      { tree := default, inodes := [[[98]], [[97]], []], files := [[[97]], [[98]]] }).toBool = true := by decide
+  cases h : fstreeSortFiles true (fun _ _ _ => false) [[45, 53, 32, 98]]
+      { tree := default, inodes := [[[98]], [[97]], []], files := [[[97]], [[98]]] } with
+  | error e => rw [h] at hk; cases hk
+  | ok s =>
+    have := directives_preserve_tree true (fun _ _ _ => false) [[45, 53, 32, 98]] _ s h
+    exact ⟨s, rfl, this.2.1, this.2.2.1⟩
+
 -- non-vacuity: two files, the second is moved to the front; tree and inode array are carried along
 open Sqfs.C17SortTree in
 open Sqfs.FsTree hiding FileEnt sortFileList sortFiles in
@@ -161,6 +199,28 @@ example :
       = some ([[[98]], [[97]], []], [[[98]], [[97]]], [([98], -5), ([97], 0)]) := by decide
 
 /-! ## Part 2 — `specPack`: each directive has exactly its layout effect -/
+
+/-! the instances of Parts 2 and 3: block size 4, a codec that really compresses (`7 7 7 7 ↦ 9`) **and meets the contract
+`Codec.Ok`** (`exCodec_ok`), six files — a dedup hit (files 0, 1), `dont_deduplicate` (2), `nosparse` with an all-zero tail (3),
+all three layout flags on a file ending in zero blocks (4), `dont_compress` on compressible data with a tail (5) -/
+
+def exCodec : Codec := ⟨fun x => if x = [7, 7, 7, 7] then some [9] else none, fun z => if z = [9] then [7, 7, 7, 7] else z⟩
+theorem exCodec_ok : exCodec.Ok := by
+  constructor
+  · intro x z h; simp only [exCodec] at h; split at h
+    · cases h; subst x; decide
+    · cases h
+  · intro x z h; simp only [exCodec] at h; split at h
+    · cases h; subst x; decide
+    · cases h
+def exParams : Params := { B := 4, base := 96, h := fun _ => 0, codec := exCodec }
+def exFlags3 : Flags := { dontCompress := true, dontFragment := true, ignoreSparse := true }
+def exFiles : List InFile :=
+  [⟨{}, [7, 7, 7, 7, 1, 2]⟩, ⟨{}, [7, 7, 7, 7, 1, 2]⟩, ⟨{ dontDedup := true }, [7, 7, 7, 7, 1, 2]⟩,
+   ⟨{ ignoreSparse := true }, [0, 0, 0, 0, 0]⟩, ⟨exFlags3, [7, 7, 7, 7, 0, 0, 0, 0, 0, 0]⟩,
+   ⟨{ dontCompress := true }, [7, 7, 7, 7, 7, 7, 7, 7, 1, 2]⟩]
+/-- the codec does compress on these inputs: file 0's first block is stored as one byte -/
+example : ((specPack exParams exFiles).files[0]?).map (fun r => r.words.map Word.toNat) = some [1] := by decide
 
 /-- **`dont_compress`, block words.**  Every block word of a `dont_compress` file is a hole or carries the
 "stored uncompressed" bit. -/
@@ -186,6 +246,9 @@ theorem dont_compress_words (P : Params) (files : List InFile) (i : Nat) (h : i 
         · left; simpa using hw
       · rw [hw'] at hw; exact hdw w hw
 
+example := dont_compress_words exParams exFiles 4 (by decide) rfl
+example := dont_compress_words exParams exFiles 5 (by decide) rfl
+
 /-- **`dont_fragment`.**  No fragment reference; the tail end is stored as block `k`: the inode has
 `⌈size / B⌉` block words. -/
 theorem dont_fragment_effect (P : Params) (files : List InFile) (i : Nat) (h : i < files.length)
@@ -206,6 +269,8 @@ theorem dont_fragment_effect (P : Params) (files : List InFile) (i : Nat) (h : i
         simp only [dataWords, List.length_map, dataBlocksOf_length, hdf, Bool.and_true, decide_eq_true_eq]
       · rw [hnt] at ht; cases ht
       · rw [hnt] at ht; cases ht
+
+example := dont_fragment_effect exParams exFiles 4 (by decide) rfl
 
 /-- **`nosparse`.**  No block word of the file is a hole, the sparse counter is 0 (so the inode is not made
 extended on account of holes) and a tail end that is packed as a fragment does get a fragment reference —
@@ -238,6 +303,10 @@ theorem nosparse_effect (P : Params) (files : List InFile) (i : Nat) (h : i < fi
       · rw [hns] at hi; cases hi
       · exact ⟨by rw [hw']; exact hdw, by rw [hsp', hsp], by simp [FileResult.extended, hsp', hsp], fun _ => hfr⟩
 
+example := nosparse_effect exParams exFiles 3 (by decide) rfl
+example := nosparse_effect exParams exFiles 4 (by decide) rfl
+example : hasTailFrag exParams.B exFiles[3] = true := by decide
+
 -- non-vacuity of the three: a `nosparse, dont_fragment, dont_compress` file of zero bytes (B = 4, no compression)
 example :
     let P : Params := { B := 4, base := 96, codec := ⟨fun _ => none, id⟩, h := fun _ => 0 }
@@ -245,10 +314,12 @@ example :
     (specPack P [⟨F, [0, 0, 0, 0, 0, 0]⟩]).files
       = [⟨6, [.stored 4 true, .stored 2 true], 96, none, 0, false⟩] := by decide
 
-/-- **`--no-tail-packing` affects only files larger than one block.**  The flag word that `pack_file`
-(`mkfs.c`) / `write_file` (`tar2sqfs`) hands to the block processor is the sort-file flag word for every file of
-at most one block, and differs from it exactly in `DONT_FRAGMENT` for larger files; without `-T` it is always the
-sort-file flag word. -/
+/-- **`--no-tail-packing` affects only files larger than one block** — **definition-level**: this restates the one-line model
+`effectiveFlags` of the option handling (`if (opt->no_tail_packing && filesize > block_size) flags |= DONT_FRAGMENT`; proof:
+`simp [effectiveFlags]`) and carries no weight of its own.  The flag word that `pack_file` (`mkfs.c`) / `write_file`
+(`tar2sqfs`) hands to the block processor is the sort-file flag word for every file of at most one block, and differs from it
+exactly in `DONT_FRAGMENT` for larger files; without `-T` it is always the sort-file flag word.  The statement with content is
+the layout consequence `no_tail_packing_layout` below; that the real option handling is this line is compared on real images. -/
 theorem no_tail_packing_only_large (B size : Nat) (F : Flags) :
     (size ≤ B → effectiveFlags true B size F = F)
     ∧ (size > B → effectiveFlags true B size F = { F with dontFragment := true })
@@ -257,6 +328,8 @@ theorem no_tail_packing_only_large (B size : Nat) (F : Flags) :
   · intro h; simp [effectiveFlags, Nat.not_lt.2 h]
   · intro h; simp [effectiveFlags, h]
   · simp [effectiveFlags]
+
+example := no_tail_packing_only_large 4 6 exFlags3
 
 /-- … and the layout consequence: with `-T`, a file of at most one block is packed exactly as without `-T`
 (in every state), a larger file never gets a fragment reference. -/
@@ -275,6 +348,10 @@ theorem no_tail_packing_layout (P : Params) (σ : State) (F : Flags) (d : List U
     · rw [hnt] at ht; cases ht
     · rw [hnt] at ht; cases ht
 
+example := no_tail_packing_layout exParams {} {} [7, 7, 7, 7, 1, 2]
+example := (no_tail_packing_layout exParams {} {} [7, 7, 7, 7, 1, 2]).2 (by decide)
+example := (no_tail_packing_layout exParams {} {} [7, 7, 1]).1 (by decide)
+
 /-! ## Part 3 — `specPack`: effects that involve other files, and the contents -/
 
 /-- **`dont_compress`** (full statement).  Every block word of such a file is a hole or has the "stored
@@ -291,6 +368,8 @@ theorem dont_compress_effect (P : Params) (files : List InFile) (i : Nat) (h : i
   rw [hr] at hr'; cases hr'
   exact ⟨r, hr, hw, hfr⟩
 
+example := dont_compress_effect exParams exFiles 5 (by decide) rfl
+
 /-- **`dont_deduplicate`.**  The file's blocks are its own (`shared = false`): they start where the data area
 ended when the file was packed, i.e. behind the blocks of every earlier file; and its fragment does not overlap the
 fragment of any earlier file (own fragment slot). -/
@@ -306,6 +385,8 @@ theorem dont_dedup_effect (P : Params) (files : List InFile) (i j : Nat) (hij : 
   rw [h1] at h1'; cases h1'
   rw [h2] at h2'; cases h2'
   exact ⟨ri, rj, h1, h2, hs hf, hb (hs hf), hfr hf⟩
+
+example := dont_dedup_effect exParams exFiles 0 2 (by decide) (by decide) rfl
 
 /-- **The layout follows the order.**  For files `i < j` of the (sorted) list that both own stored blocks, `j` not
 sharing: `i`'s blocks lie entirely before `j`'s first block; in particular the start offsets ascend strictly. -/
@@ -333,6 +414,9 @@ theorem layout_follows_order (P : Params) (hB : 0 < P.B) (hc : P.codec.Ok) (file
   rw [← hri] at hposi
   omega
 
+/-- instance with a codec that compresses and is proved to meet `Codec.Ok` -/
+example := layout_follows_order exParams (by decide) exCodec_ok exFiles 0 2 (by decide) (by decide)
+
 /-- **The directives do not change the contents.**  Whatever the flags, the order and the other files: reading
 file `i` back from the `specPack` layout — block words in order, a hole as zeros, a stored block via `unc` unless
 raw, the tail end from its fragment block — yields exactly the file's input bytes. -/
@@ -340,6 +424,10 @@ theorem directives_preserve_content (P : Params) (hB : 0 < P.B) (hc : P.codec.Ok
     (h : i < files.length) :
     ∃ r, (specPack P files).files[i]? = some r ∧ readFile P (specPack P files) r = files[i].data :=
   readFile_specPack P hB hc files i h
+
+example : ∃ r, (specPack exParams exFiles).files[1]? = some r ∧ readFile exParams (specPack exParams exFiles) r = [7, 7, 7, 7, 1, 2] :=
+  directives_preserve_content exParams (by decide) exCodec_ok exFiles 1 (by decide)
+example := directives_preserve_content exParams (by decide) exCodec_ok exFiles 5 (by decide)
 
 -- non-vacuity: dedup hit + dont_deduplicate + nosparse + a compressing codec that satisfies the contract on the inputs
 example :
@@ -364,6 +452,8 @@ theorem directives_preserve_size (P : Params) (files : List InFile) :
   · rw [packFile_empty P σ f hne]; simp [hne]
   · exact (packFile_shape P σ f hne _ rfl).1
 
+
+example := directives_preserve_size exParams exFiles
 
 /-! ## Part 4 — the export table
 
@@ -396,6 +486,12 @@ theorem export_table_ok (ref : Nat → UInt64) (nums : List Nat) (root N : Nat)
 example : exportTable [(2, 100), (3, 7), (2, 100)] (1, 50) = [50, 100, 7] := by decide
 
 
+/-- instance: numbers 2, 3, 2, 4 and root 1 cover 1…4 (`hall`), every number is in range (`hin`) -/
+example := export_table_ok (fun m => UInt64.ofNat (m * 10)) [2, 3, 2, 4] 1 4 (by decide) (by
+  intro m h1 h2
+  have : m = 1 ∨ m = 2 ∨ m = 3 ∨ m = 4 := by omega
+  rcases this with h | h | h | h <;> subst h <;> decide)
+
 open Sqfs.C17Export in
 /-- **The array of `dir_writer.c` holds the ideal table** — for every sequence of `add_export_table_entry` calls with
 inode numbers ≥ 1 (any order, any gaps, beyond the initial 512 cells and beyond any later capacity): no call stores or
@@ -410,6 +506,9 @@ theorem export_array_refines (entries : List (Nat × UInt64)) (root : Nat × UIn
   obtain ⟨a, h1, h2⟩ := addAll_inv (entries ++ [root]) init [] init_inv h
   exact ⟨a, h1, h2.1, h2.2.1, tableBytes_inv a _ h2⟩
 
+
+open Sqfs.C17Export in
+example := export_array_refines [(600, 7), (2, 9)] (1, 5) (by decide)
 
 -- non-vacuity: entry 600 first (capacity 512 → 1024, gap filled), then two small ones
 set_option maxRecDepth 16384 in
@@ -445,6 +544,9 @@ theorem export_table_written (cmp : MetaWriter.Codec) (entries : List (Nat × UI
     | cons v t ih => simp only [List.flatMap_cons, List.length_append, ih, List.length_cons]; simp [le64]; omega
   rw [this]
 
+
+open Sqfs.C17Export in
+example := export_table_written (fun _ => none) [(600, 7), (2, 9)] (1, 5) (by decide)
 
 open Sqfs.Numbering Sqfs.C17Export in
 /-- **Every inode of a numbered tree gets its entry.**  `cs` = the root's children (any tree shape, hard-link entries
@@ -482,6 +584,10 @@ theorem export_table_of_tree (cs : List Tree) (ref : Nat → UInt64) (nums : Lis
     grind
   · rw [List.getElem?_eq_none_iff.2 (by omega), List.getElem?_eq_none_iff.2 (by simp; omega)]
 
+
+open Sqfs.Numbering Sqfs.C17Export in
+/-- instance: five inodes, one hard link, one repeated call -/
+example := export_table_of_tree [.file, .dir [.file, .hlink 0], .file] (fun m => UInt64.ofNat (m * 10)) [2, 3, 1, 4, 3] (by decide) (by decide)
 
 -- non-vacuity: root = { file, dir { file, hard link }, file }: 5 inodes, the calls cover 1..4, the root is 5
 open Sqfs.Numbering Sqfs.C17Export in
